@@ -7,6 +7,7 @@ import (
 	"time"
 
 	"github.com/keep-network/keep-common/pkg/cache"
+	"github.com/keep-network/keep-core/pkg/internal/verifhook"
 )
 
 const (
@@ -62,6 +63,7 @@ func (d *deduplicator) notifyDKGStarted(
 	// If the key is not in the cache, that means the seed was not handled
 	// yet and the client should proceed with the execution.
 	if !d.dkgSeedCache.Has(cacheKey) {
+		verifhook.Point("tbtc.notifyDKGStarted")
 		d.dkgSeedCache.Add(cacheKey)
 		return true
 	}
@@ -88,6 +90,7 @@ func (d *deduplicator) notifyDKGResultSubmitted(
 	// If the key is not in the cache, that means the result was not handled
 	// yet and the client should proceed with the execution.
 	if !d.dkgResultHashCache.Has(cacheKey) {
+		verifhook.Point("tbtc.notifyDKGResultSubmitted")
 		d.dkgResultHashCache.Add(cacheKey)
 		return true
 	}
@@ -108,6 +111,7 @@ func (d *deduplicator) notifyWalletClosed(
 	// If the key is not in the cache, that means the wallet closure was not
 	// handled yet and the client should proceed with the execution.
 	if !d.walletClosedCache.Has(cacheKey) {
+		verifhook.Point("tbtc.notifyWalletClosed")
 		d.walletClosedCache.Add(cacheKey)
 		return true
 	}
